@@ -17,7 +17,9 @@ from harness.props import c05, c06
 
 RULE = ("cases: random trees 2..6 nodes; 'equality' cases: states with bonds = Schmidt ranks, truncation disabled, "
         "both integrators x both copy strategies vs dense reference BUG; 'contract' cases: arbitrary bonds incl. "
-        "redundant ones, 2 steps, truncation grid for the rank-adaptive variant; saturated two-node cases. "
+        "redundant ones, 2 steps, truncation grid for the rank-adaptive variant; saturated two-node cases; plus real "
+        "TTNS/TTNO pairs on random trees with 2..7 nodes whose cache reads during one BUG / FixedBUG step (tagged old / "
+        "new) are compared with the environment machine. "
         "non-trivial = distinct (shape, integrator, copy strategy, seed) with >= 3 nodes or a two-node exactness case")
 PARTIAL = ["step-equality with the scheme is decided per input against the dense reference (no universal theorem). Proved "
            "around it: the update order (Tree.updates_perm, updates_nodup, root_last, Tree.child_before_parent, "
@@ -25,7 +27,10 @@ PARTIAL = ["step-equality with the scheme is decided per input against the dense
            "block every local evolution reads (Ptn.C09.Env.bug_trace_eq_ideal, bug_env_sources: parent-side block old, "
            "child-side blocks new, no read fails; bug_child_cache_isolation; bug_each_block_built_once; "
            "bug_old_blocks_fresh) for every well-formed tree and every sibling order; that machine is tied to the real "
-           "BUG / FixedBUG classes by the tagged-cache comparison in harness/props/c17.py, not by a proof about Python",
+           "BUG / FixedBUG classes by the tagged-cache comparison run here on real networks (every cache read with the "
+           "generation of the block it returns against the model's `bugenv` answer, as a set of events; observation "
+           "code shared with harness/props/c17.py; a rank-adaptive run that raises - known finding F-C09 - is skipped "
+           "and tallied), not by a proof about Python",
            "conservation: the Galerkin step is an exact isometric local flow (galerkin_conserves_norm/energy, "
            "fixed_rank_step_nonexpansive; instances of Ptn.Analysis) and a basis containing the old one reproduces the old "
            "state (augmented_basis_reproduces_state); that the library's embeddings ARE isometric and that the new bases "
@@ -115,9 +120,16 @@ def run(ctx):
                 ctx.corr_fail(c, f"update order: impl=[{o['impl']}] model=[{mo}]")
     finally:
         rec.uninstall()
+    # tie of the BUG environment machine (Ptn.C09.Env) to the code: every cache read of a BUG / FixedBUG step with the
+    # generation (old / new basis) of the block it returns, against the model (harness shared with C17)
+    from harness.props import c17
+    c17.run_real_parts(ctx, ["bugenv"], ctx.n(12, 120))
 
 
 def run_case(ctx, case):
+    if case.get("via") == "c17":
+        from harness.props import c17
+        return c17.run_case(ctx, case)
     rec = c05.Recorder()
     rec.install()
     try:
